@@ -61,6 +61,9 @@ pub enum Insertion {
     /// foreign element that binds a second namespace name of its own to the URL of extension number `which`
     /// (mod count) declared on the root element
     Alias { at: u16, which: u8, local: String },
+    /// foreign attribute on start tag number `at` (mod count) under a second namespace name that the same start tag binds
+    /// to the URL of extension number `which` (mod count) declared on the root element
+    AttrAlias { at: u16, which: u8, local: String },
 }
 
 #[derive(Clone, Serialize, Deserialize)]
@@ -252,6 +255,19 @@ fn apply(xml: &str, ins: &[Insertion]) -> String {
                 let url = urls[*which as usize % urls.len()];
                 edits.push((pos, format!("<zzalias{which}:{local} xmlns:zzalias{which}=\"{url}\" type=\"String\">alias</zzalias{which}:{local}>\n")));
             }
+            Insertion::AttrAlias { at, which, local } => {
+                let root_tag = xml.find("<e57Root").map(|p| &xml[p..p + xml[p..].find('>').unwrap_or(0)]).unwrap_or("");
+                let urls: Vec<&str> = root_tag.split("xmlns:").skip(1).filter_map(|d| d.split('"').nth(1)).collect();
+                // a namespace declared on the root element is an extension of the file: every start tag but the root's
+                // (the root's start tag is the first one the scan meets)
+                let tags: Vec<usize> = sc.tags.iter().copied().skip(1).collect();
+                if tags.is_empty() || urls.is_empty() {
+                    continue;
+                }
+                let pos = tags[*at as usize % tags.len()];
+                let url = urls[*which as usize % urls.len()];
+                edits.push((pos, format!(" xmlns:zzattr{which}=\"{url}\" zzattr{which}:{local}=\"1\"")));
+            }
             Insertion::InLeaf { at, local, text, front } => {
                 if sc.leaf_ends.is_empty() {
                     continue;
@@ -329,7 +345,7 @@ fn local_name(s: &mut Src) -> String {
 
 fn insertion(s: &mut Src) -> Insertion {
     if s.chance(1, 8) {
-        return Insertion::Alias { at: s.u16(), which: s.byte(), local: local_name(s) };
+        return if s.flag() { Insertion::Alias { at: s.u16(), which: s.byte(), local: local_name(s) } } else { Insertion::AttrAlias { at: s.u16(), which: s.byte(), local: local_name(s) } };
     }
     if s.chance(1, 6) {
         return Insertion::InLeaf { at: s.u16(), local: local_name(s), text: s.pick(&["en", "7", "", "x y"]).to_string(), front: s.flag() };
@@ -427,6 +443,7 @@ impl Check for C18 {
                         }
                         Insertion::InLeaf { .. } => v.nt("foreign_element_nested_in_a_leaf"),
                         Insertion::Alias { .. } => v.nt("foreign_element_binding_another_name_to_an_extension_url"),
+                        Insertion::AttrAlias { .. } => v.nt("foreign_attribute_binding_another_name_to_an_extension_url"),
                         Insertion::Attr { .. } => v.label("foreign_attribute"),
                     }
                 }
@@ -495,12 +512,13 @@ impl Check for C18 {
                             },
                             Insertion::InLeaf { at, local, text, front } => Insertion::InLeaf { at: *at, local: format!("q_{local}"), text: text.clone(), front: *front },
                             Insertion::Alias { at, which, local } => Insertion::Alias { at: *at, which: *which, local: format!("q_{local}") },
+                            Insertion::AttrAlias { at, which, local } => Insertion::AttrAlias { at: *at, which: *which, local: format!("q_{local}") },
                             a => a.clone(),
                         })
                         .collect();
                     let caused_by_local_names = insertions.iter().any(|i| match i {
                         Insertion::Elem { local, child, .. } => VOCAB.contains(&local.as_str()) || child.as_ref().map(|c| VOCAB.contains(&c.as_str())).unwrap_or(false),
-                        Insertion::InLeaf { local, .. } | Insertion::Alias { local, .. } => VOCAB.contains(&local.as_str()),
+                        Insertion::InLeaf { local, .. } | Insertion::Alias { local, .. } | Insertion::AttrAlias { local, .. } => VOCAB.contains(&local.as_str()),
                         _ => false,
                     })
                         && matches!(guard(|| write_with(program, &neutral)), Ok(Ok(ref b)) if verdict(b).is_ok());
